@@ -816,6 +816,7 @@ func tableFresh(r *core.Run) {
 
 func run(r *core.Run) {
 	r.Rule("E: for every registered callable x argument tuple (0..2 constructor forms over 12 values) the result is mutated in place in every way and the call repeated: same oracle as A (process-wide mutable values handed out by fast paths); A: every registered callable of a stdlib runtime x every argument position (<=3) x filler tuple x routing of a program literal into that position (quoted literal, cdr view, slice 'list view, nested element, &rest list, quasiquote output, macro &rest list, append copy, slice 'vector, append 'vector, apply into a &rest list, &rest view, constant top level / constant sub-list / view of a constant sub-list of a quasiquote template, spliced literal, constant part of a macro's template, the &rest list of a macro reached through macroexpand / macroexpand-1 of a quoted form directly and behind pass-through macros) x literal x follow-up mutator (none, stable-sort, append!, sort of the literal itself): shared parse loaded twice in one runtime and once in another vs a fresh parse; " +
+		"P: every elpspath operator (? ?set! ?set ?del! ?del ?nil! ?nil) x document x step sequence (length 0..2 over index, key, '*, whole and partial ranges) with the literal routed in as the document, as a member of it and as the replacement value, x 10 in-place writers on the result: same oracle as A; " +
 		"B: BFS over all load histories (runtime index per load, canonical numbering) up to the depth bound for every hand-written program; " +
 		"C: every schedule of K runtimes sharing one Program with at most the preemption bound, scheduling point = every evaluation step; invariants evaluated in every global state. Non-trivial: routing programs distinct by text; schedule programs by text")
 	r.Assume("the parsed tree is observed through lisp.SealedASTFingerprint plus an independent structural dump (type, name, numbers, quote/seal flags, positions, children) and lisp.TakeSingletonSnapshot")
@@ -838,6 +839,9 @@ func run(r *core.Run) {
 	if only == "" || only == "E" {
 		tableFresh(r)
 	}
+	if only == "" || only == "P" {
+		tablePaths(r)
+	}
 	if only == "" || only == "A" {
 		tableRouting(r)
 	}
@@ -845,7 +849,7 @@ func run(r *core.Run) {
 
 func replay(v core.Violation) (bool, string) {
 	switch {
-	case strings.HasPrefix(v.Class, "A-routing"), strings.HasPrefix(v.Class, "D-"), strings.HasPrefix(v.Class, "E-"):
+	case strings.HasPrefix(v.Class, "A-routing"), strings.HasPrefix(v.Class, "P-path"), strings.HasPrefix(v.Class, "D-"), strings.HasPrefix(v.Class, "E-"):
 		k, err := core.CaseOf[rcase](v)
 		if err != nil {
 			return false, err.Error()
